@@ -61,6 +61,9 @@ def gen_collection(rng):
         grp = gen_group(rng, 100.0 - 60.0 * (g + 1), min(k, 2), 1.5e9)
         grp = [(ts[:3], ys[:3]) for ts, ys in grp]
         groups.append(grp)
+    if rng.random() < 0.25:
+        # an exact tie: a second body that is a copy of the main one, 60 mm lower (same number of levels)
+        groups = [groups[0], [(ts, [h - 60.0 for h in hs]) for ts, hs in groups[0]]]
     series, member = [], []
     for gi, grp in enumerate(groups):
         for s in grp:
@@ -99,8 +102,12 @@ def run(ctx):
         sizes = [(len(g[0]), len(g[1])) for g in hm["components"]]
         by_levels = sorted(sizes, reverse=True)
         if len(by_levels) > 1 and (by_levels[0][0] == by_levels[1][0]):
-            ctx.count("ties_avoided")
-            continue
+            # two bodies spanning the same number of levels: the tool breaks the tie by the order of initial
+            # levels (series are sorted by initial level first), which does not depend on presentation order
+            ctx.count("ties_in_component_size")
+            if len({hs[0] for _ts, hs in series}) != len(series):
+                ctx.count("ties_avoided_equal_initial_levels")
+                continue
         try:
             base = impl_align(fo, series, step)
             err = None
@@ -132,6 +139,10 @@ def run(ctx):
         ctx.obligation(ob_model, ok_model)
         # the property's own clauses, on the implementation alone
         main = {i for i, g in enumerate(member) if g == 0}
+        if mod["outcome"] == "ok" and len(by_levels) > 1 and by_levels[0][0] == by_levels[1][0]:
+            kept_groups = {member[s_] for s_, _ in mod["offsets"]}
+            if len(kept_groups) == 1:
+                main = {i for i, g in enumerate(member) if g in kept_groups}
         stray_in = set(offsets) - main
         missing = {i for i in main if i not in offsets}
         # an interval of the main body may legitimately be absent only if it shares no level with any other
